@@ -1,4 +1,6 @@
 //! C04 Element-wise arithmetic and maps are exact at every length and operand form.
+// @bound c04_vec_: one instance per operator and length L; every f64 value incl. NaN, infinities, signed zeros (float operations uninterpreted, U)
+// @claim c04_vec_: all eleven operand forms of the operator on Vector give at each position exactly op(lhs[i], rhs[i]) (operand order kept), length kept, operands unchanged
 use crate::rt::inp;
 use crate::{harness, vassert, vassume, vbits, vclose, vle, vmustpanic};
 use compute::linalg::*;
@@ -68,12 +70,547 @@ macro_rules! vec_forms {
         }
     };
 }
+/// the four kernels (vector-vector, assign, vector-scalar, scalar-vector) only: for long vectors
+macro_rules! vec_core {
+    ($fname:ident, $op:tt, $opa:tt) => {
+        fn $fname<const L: usize>() {
+            let a0: [f64; L] = inp::arr(0);
+            let b0: [f64; L] = inp::arr(100);
+            let s = inp::f64(200);
+            let a = Vector::new(a0.to_vec());
+            let b = Vector::new(b0.to_vec());
+            let mut want = [0.0f64; L];
+            let mut want_vs = [0.0f64; L];
+            let mut want_sv = [0.0f64; L];
+            let mut i = 0;
+            while i < L {
+                want[i] = a0[i] $op b0[i];
+                want_vs[i] = a0[i] $op s;
+                want_sv[i] = s $op a0[i];
+                i += 1;
+            }
+            same(&(&a $op &b), &want, "&a op &b");
+            let mut c = a.clone();
+            c $opa &b;
+            same(&c, &want, "a op= &b");
+            same(&(&a $op s), &want_vs, "&a op s");
+            same(&(s $op &a), &want_sv, "s op &a");
+            let mut c = a.clone();
+            c $opa s;
+            same(&c, &want_vs, "a op= s");
+            same(&a, &a0, "lhs unchanged");
+            same(&b, &b0, "rhs unchanged");
+        }
+    };
+}
+vec_core!(vecc_add, +, +=);
+vec_core!(vecc_sub, -, -=);
+vec_core!(vecc_mul, *, *=);
+vec_core!(vecc_div, /, /=);
 vec_forms!(vec_add, +, +=);
 vec_forms!(vec_sub, -, -=);
 vec_forms!(vec_mul, *, *=);
 vec_forms!(vec_div, /, /=);
 
-harness!(name=c04_vec_add_0, prop=C04, mode=U, kind=normal, tier=quick, unwind=3, { vec_add::<0>() });
-harness!(name=c04_vec_add_1, prop=C04, mode=U, kind=normal, tier=quick, unwind=4, { vec_add::<1>() });
-harness!(name=c04_vec_sub_9, prop=C04, mode=U, kind=normal, tier=quick, unwind=12, { vec_sub::<9>() });
-harness!(name=c04_vec_div_9, prop=C04, mode=U, kind=normal, tier=quick, unwind=12, { vec_div::<9>() });
+
+macro_rules! mat_forms {
+    ($fname:ident, $op:tt, $opa:tt) => {
+        fn $fname<const R: usize, const C: usize>() {
+            let a0 = inp::vec(0, R * C);
+            let b0 = inp::vec(100, R * C);
+            let s = inp::f64(200);
+            let a = Matrix::new(a0.clone(), R as i32, C as i32);
+            let b = Matrix::new(b0.clone(), R as i32, C as i32);
+            let mut want = vec![0.0f64; R * C];
+            let mut want_vs = vec![0.0f64; R * C];
+            let mut want_sv = vec![0.0f64; R * C];
+            let mut i = 0;
+            while i < R * C {
+                want[i] = a0[i] $op b0[i];
+                want_vs[i] = a0[i] $op s;
+                want_sv[i] = s $op a0[i];
+                i += 1;
+            }
+            let chk = |m: &Matrix, w: &[f64], what: &'static str| {
+                vassert!(m.nrows == R && m.ncols == C && m.data.len() == R * C, "{}: shape {}x{}", what, m.nrows, m.ncols);
+                let mut i = 0;
+                while i < R * C && i < m.data.len() {
+                    vbits!(m.data[i], w[i], "{} changed at {}", what, i);
+                    i += 1;
+                }
+            };
+            // compound assignment (matrix and scalar right-hand sides)
+            let mut c = a.clone();
+            c $opa &b;
+            chk(&c, &want, "A op= &B");
+            chk(&b, &b0, "rhs after A op= &B");
+            let mut c = a.clone();
+            c $opa b.clone();
+            chk(&c, &want, "A op= B");
+            let mut c = a.clone();
+            c $opa s;
+            chk(&c, &want_vs, "A op= s");
+            // scalar on the right / left, owned and borrowed
+            chk(&(&a $op s), &want_vs, "&A op s");
+            chk(&(a.clone() $op s), &want_vs, "A op s");
+            chk(&(s $op &a), &want_sv, "s op &A");
+            chk(&(s $op a.clone()), &want_sv, "s op A");
+            chk(&a, &a0, "operand after scalar forms");
+            // matrix ∘ matrix of equal shape (through the broadcasting entry point)
+            chk(&(&a $op &b), &want, "&A op &B");
+            chk(&(a.clone() $op b.clone()), &want, "A op B");
+        }
+    };
+}
+mat_forms!(mat_add, +, +=);
+mat_forms!(mat_sub, -, -=);
+mat_forms!(mat_mul, *, *=);
+mat_forms!(mat_div, /, /=);
+
+// @bound c04_map_: one instance per map at length L (9 = one unrolled block plus a remainder; also 0, 1, 17); values opaque (U)
+// @claim c04_map_: Vector and Matrix forms of every unary map apply exactly the f64 method of the same name at every position (each libm function is its own uninterpreted symbol, so a mis-wired macro instance is a different term); Neg flips the sign bit
+macro_rules! map_h {
+    ($fname:ident, $m:ident) => {
+        fn $fname<const L: usize>() {
+            let a0: [f64; L] = inp::arr(0);
+            let a = Vector::new(a0.to_vec());
+            let mut want = [0.0f64; L];
+            let mut i = 0;
+            while i < L {
+                want[i] = a0[i].$m();
+                i += 1;
+            }
+            same(&a.$m(), &want, stringify!($m));
+            same(&a, &a0, "operand after the map");
+            if L > 0 {
+                let m = Matrix::new(a0.to_vec(), 1, L as i32).$m();
+                vassert!(m.nrows == 1 && m.ncols == L, "Matrix map shape");
+                same(&m.data, &want, stringify!($m));
+            }
+        }
+    };
+}
+map_h!(map_ln, ln);
+map_h!(map_ln_1p, ln_1p);
+map_h!(map_log10, log10);
+map_h!(map_log2, log2);
+map_h!(map_exp, exp);
+map_h!(map_exp2, exp2);
+map_h!(map_exp_m1, exp_m1);
+map_h!(map_sin, sin);
+map_h!(map_cos, cos);
+map_h!(map_tan, tan);
+map_h!(map_sinh, sinh);
+map_h!(map_cosh, cosh);
+map_h!(map_tanh, tanh);
+map_h!(map_asin, asin);
+map_h!(map_acos, acos);
+map_h!(map_atan, atan);
+map_h!(map_asinh, asinh);
+map_h!(map_acosh, acosh);
+map_h!(map_atanh, atanh);
+map_h!(map_sqrt, sqrt);
+map_h!(map_cbrt, cbrt);
+map_h!(map_abs, abs);
+map_h!(map_floor, floor);
+map_h!(map_ceil, ceil);
+map_h!(map_to_radians, to_radians);
+map_h!(map_to_degrees, to_degrees);
+map_h!(map_recip, recip);
+map_h!(map_round, round);
+map_h!(map_signum, signum);
+
+fn neg_h<const L: usize>() {
+    let a0: [f64; L] = inp::arr(0);
+    let mut want = [0.0f64; L];
+    let mut i = 0;
+    while i < L {
+        want[i] = -a0[i];
+        i += 1;
+    }
+    same(&(-Vector::new(a0.to_vec())), &want, "-v");
+    if L > 0 {
+        let m = -Matrix::new(a0.to_vec(), L as i32, 1);
+        vassert!(m.nrows == L && m.ncols == 1, "-M shape");
+        same(&m.data, &want, "-M");
+    }
+}
+// @claim c04_pow_: powi (exponents -1, 0, 1, 2, 3, 4: the unrolled blocks use x*x and x*x*x for 2 and 3) and powf with a symbolic exponent
+fn powi_h<const L: usize>(e: i32) {
+    let a0: [f64; L] = inp::arr(0);
+    let a = Vector::new(a0.to_vec());
+    let mut want = [0.0f64; L];
+    let mut i = 0;
+    while i < L {
+        want[i] = a0[i].powi(e);
+        i += 1;
+    }
+    same(&a.powi(e), &want, "powi");
+    if L > 0 {
+        same(&Matrix::new(a0.to_vec(), 1, L as i32).powi(e).data, &want, "Matrix powi");
+    }
+}
+fn powf_h<const L: usize>() {
+    let a0: [f64; L] = inp::arr(0);
+    let e = inp::f64(200);
+    let a = Vector::new(a0.to_vec());
+    let mut want = [0.0f64; L];
+    let mut i = 0;
+    while i < L {
+        want[i] = a0[i].powf(e);
+        i += 1;
+    }
+    same(&a.powf(e), &want, "powf");
+    if L > 0 {
+        same(&Matrix::new(a0.to_vec(), L as i32, 1).powf(e).data, &want, "Matrix powf");
+    }
+}
+
+// @claim c04_mismatch_: operands of different length / shape are rejected by a panic
+fn mismatch(which: u8) {
+    let a = Vector::new(inp::vec(0, 9));
+    let b = Vector::new(inp::vec(100, 8));
+    let e = Vector::new(Vec::new());
+    let o = Vector::new(inp::vec(150, 1));
+    match which {
+        0 => vmustpanic!(&a + &b, "9 + 8"),
+        1 => vmustpanic!(a.clone() - b.clone(), "9 - 8"),
+        2 => vmustpanic!(&b * &a, "8 * 9"),
+        3 => vmustpanic!(&e / &o, "0 / 1"),
+        4 => { let mut c = a.clone(); vmustpanic!({ c += &b; c.len() }, "9 += 8"); }
+        5 => { let mut c = b.clone(); vmustpanic!({ c /= a.clone(); c.len() }, "8 /= 9"); }
+        6 => { let mut m = Matrix::new(inp::vec(0, 6), 2, 3); let n = Matrix::new(inp::vec(100, 6), 3, 2); vmustpanic!({ m += &n; m.nrows }, "2x3 += 3x2"); }
+        _ => { let mut m = Matrix::new(inp::vec(0, 6), 2, 3); let n = Matrix::new(inp::vec(100, 4), 2, 2); vmustpanic!({ m *= n; m.nrows }, "2x3 *= 2x2"); }
+    }
+}
+
+// ---- reductions (R)
+fn amax(v: &[f64]) -> f64 {
+    let mut s: f64 = 1.0;
+    for x in v {
+        s = s.max(x.abs());
+    }
+    s
+}
+// @bound c04_red_: length L (instance), every real vector in ±1e3
+// @claim c04_red_: sum, prod, dot, norm (as norm^2 = sum x_i^2, norm >= 0), inf_norm = max row sum of |.| equal their definitions (R); Vector / Matrix method forms call the same functions
+fn red<const L: usize>() {
+    let x: [f64; L] = inp::arr(0);
+    let y: [f64; L] = inp::arr(100);
+    let mut i = 0;
+    while i < L {
+        vassume!(x[i] >= -1.0e3 && x[i] <= 1.0e3 && y[i] >= -1.0e3 && y[i] <= 1.0e3);
+        i += 1;
+    }
+    let (mut s, mut p, mut d, mut q, mut ab) = (0.0, 1.0, 0.0, 0.0, 0.0);
+    let mut i = 0;
+    while i < L {
+        s += x[i];
+        p *= x[i];
+        d += x[i] * y[i];
+        q += x[i] * x[i];
+        ab += crate::rt::fabs(x[i]);
+        i += 1;
+    }
+    let sc = amax(&x) * amax(&y) * (L as f64 + 1.0);
+    vclose!(sum(&x), s, 1e-9 * sc, "sum L={}", L);
+    vclose!(dot(&x, &y), d, 1e-9 * sc, "dot L={}", L);
+    if L <= 4 {
+        vclose!(prod(&x), p, 1e-6 * (1.0 + crate::rt::fabs(p)), "prod L={}", L);
+    }
+    let n = norm(&x);
+    vassert!(n >= 0.0, "norm negative");
+    vclose!(n * n, q, 1e-9 * sc * amax(&x), "norm^2 L={}", L);
+    if L > 0 {
+        // one row: infinity norm = sum of absolute values
+        vclose!(inf_norm(&x, 1), ab, 1e-9 * sc, "inf_norm, one row");
+        let v = Vector::new(x.to_vec());
+        vclose!(v.sum(), s, 1e-9 * sc, "Vector::sum");
+        vclose!(Matrix::new(x.to_vec(), 1, L as i32).sum(), s, 1e-9 * sc, "Matrix::sum");
+    }
+}
+// @claim c04_infnorm_: inf_norm of an RxC matrix is the largest row sum of absolute values (R)
+fn infnorm<const R: usize, const C: usize>() {
+    let x = inp::vec(0, R * C);
+    for v in &x {
+        vassume!(*v >= -1.0e3 && *v <= 1.0e3);
+    }
+    let got = inf_norm(&x, R);
+    let mut best = 0.0;
+    let mut hit = false;
+    let mut i = 0;
+    while i < R {
+        let mut s = 0.0;
+        let mut j = 0;
+        while j < C {
+            s += crate::rt::fabs(x[i * C + j]);
+            j += 1;
+        }
+        vassert!(got >= s - 1e-9, "inf_norm below row sum {}", i);
+        if got <= s + 1e-9 && got >= s - 1e-9 {
+            hit = true;
+        }
+        if s > best {
+            best = s;
+        }
+        i += 1;
+    }
+    vassert!(hit, "inf_norm {:e} is not a row sum (max {:e})", got, best);
+}
+// @axioms c04_lse_: exp_pos exp_range exp_ratio exp_log log_mul
+// @bound c04_lse_: length L (instance), log-domain inputs in ±1e4
+// @claim c04_lse_: no exponential argument of logsumexp / logmeanexp can exceed 709.78 (no overflow for large-magnitude inputs); for L = 1 the result is the input itself (R)
+fn lse<const L: usize>() {
+    let x: [f64; L] = inp::arr(0);
+    let mut i = 0;
+    while i < L {
+        vassume!(x[i] >= -1.0e4 && x[i] <= 1.0e4);
+        i += 1;
+    }
+    let a = logsumexp(&x);
+    let b = logmeanexp(&x);
+    if L == 1 {
+        #[cfg(kani)]
+        vassume!((0.0f64).exp() == 1.0 && (1.0f64).ln() == 0.0);
+        vclose!(a, x[0], 1e-9 * (1.0 + crate::rt::fabs(x[0])), "logsumexp of one element");
+        vclose!(b, x[0], 1e-9 * (1.0 + crate::rt::fabs(x[0])), "logmeanexp of one element");
+    } else {
+        // (symbolically only the overflow obligations matter here; natively a NaN / inf result is the failure)
+        #[cfg(not(kani))]
+        vassert!(a.is_finite() && b.is_finite(), "log-domain reduction is not finite: {:e} {:e}", a, b);
+        let _ = (a, b);
+    }
+}
+harness!(name=c04_vec_add_0, prop=C04, mode=U, kind=normal, tier=quick, unwind=20, { vec_add::<0>() });
+harness!(name=c04_vec_add_1, prop=C04, mode=U, kind=normal, tier=quick, unwind=20, { vec_add::<1>() });
+harness!(name=c04_vec_add_2, prop=C04, mode=U, kind=normal, tier=thorough, unwind=20, { vec_add::<2>() });
+harness!(name=c04_vec_add_3, prop=C04, mode=U, kind=normal, tier=thorough, unwind=20, { vec_add::<3>() });
+harness!(name=c04_vec_add_4, prop=C04, mode=U, kind=normal, tier=thorough, unwind=20, { vec_add::<4>() });
+harness!(name=c04_vec_add_5, prop=C04, mode=U, kind=normal, tier=thorough, unwind=20, { vec_add::<5>() });
+harness!(name=c04_vec_add_6, prop=C04, mode=U, kind=normal, tier=thorough, unwind=20, { vec_add::<6>() });
+harness!(name=c04_vec_add_7, prop=C04, mode=U, kind=normal, tier=rot1, unwind=20, { vec_add::<7>() });
+harness!(name=c04_vec_add_8, prop=C04, mode=U, kind=normal, tier=quick, unwind=20, { vec_add::<8>() });
+harness!(name=c04_vec_add_9, prop=C04, mode=U, kind=normal, tier=quick, unwind=20, { vec_add::<9>() });
+harness!(name=c04_vec_add_10, prop=C04, mode=U, kind=normal, tier=thorough, unwind=20, { vec_add::<10>() });
+harness!(name=c04_vec_add_11, prop=C04, mode=U, kind=normal, tier=thorough, unwind=20, { vec_add::<11>() });
+harness!(name=c04_vec_add_12, prop=C04, mode=U, kind=normal, tier=thorough, unwind=20, { vec_add::<12>() });
+harness!(name=c04_vec_add_13, prop=C04, mode=U, kind=normal, tier=thorough, unwind=20, { vec_add::<13>() });
+harness!(name=c04_vec_add_14, prop=C04, mode=U, kind=normal, tier=thorough, unwind=20, { vec_add::<14>() });
+harness!(name=c04_vec_add_15, prop=C04, mode=U, kind=normal, tier=rot0, unwind=20, { vecc_add::<15>() });
+harness!(name=c04_vec_add_16, prop=C04, mode=U, kind=normal, tier=rot1, unwind=20, { vecc_add::<16>() });
+harness!(name=c04_vec_add_17, prop=C04, mode=U, kind=normal, tier=quick, unwind=21, { vecc_add::<17>() });
+harness!(name=c04_vec_add_18, prop=C04, mode=U, kind=normal, tier=thorough, unwind=22, { vecc_add::<18>() });
+harness!(name=c04_vec_add_19, prop=C04, mode=U, kind=normal, tier=thorough, unwind=23, { vecc_add::<19>() });
+harness!(name=c04_vec_add_20, prop=C04, mode=U, kind=normal, tier=thorough, unwind=24, { vecc_add::<20>() });
+harness!(name=c04_vec_add_21, prop=C04, mode=U, kind=normal, tier=thorough, unwind=25, { vecc_add::<21>() });
+harness!(name=c04_vec_add_22, prop=C04, mode=U, kind=normal, tier=thorough, unwind=26, { vecc_add::<22>() });
+harness!(name=c04_vec_add_23, prop=C04, mode=U, kind=normal, tier=thorough, unwind=27, { vecc_add::<23>() });
+harness!(name=c04_vec_add_24, prop=C04, mode=U, kind=normal, tier=thorough, unwind=28, { vecc_add::<24>() });
+harness!(name=c04_vec_add_33, prop=C04, mode=U, kind=normal, tier=thorough, unwind=40, { vecc_add::<33>() });
+harness!(name=c04_vec_sub_0, prop=C04, mode=U, kind=normal, tier=quick, unwind=20, { vec_sub::<0>() });
+harness!(name=c04_vec_sub_1, prop=C04, mode=U, kind=normal, tier=quick, unwind=20, { vec_sub::<1>() });
+harness!(name=c04_vec_sub_2, prop=C04, mode=U, kind=normal, tier=thorough, unwind=20, { vec_sub::<2>() });
+harness!(name=c04_vec_sub_3, prop=C04, mode=U, kind=normal, tier=thorough, unwind=20, { vec_sub::<3>() });
+harness!(name=c04_vec_sub_4, prop=C04, mode=U, kind=normal, tier=thorough, unwind=20, { vec_sub::<4>() });
+harness!(name=c04_vec_sub_5, prop=C04, mode=U, kind=normal, tier=thorough, unwind=20, { vec_sub::<5>() });
+harness!(name=c04_vec_sub_6, prop=C04, mode=U, kind=normal, tier=thorough, unwind=20, { vec_sub::<6>() });
+harness!(name=c04_vec_sub_7, prop=C04, mode=U, kind=normal, tier=rot2, unwind=20, { vec_sub::<7>() });
+harness!(name=c04_vec_sub_8, prop=C04, mode=U, kind=normal, tier=quick, unwind=20, { vec_sub::<8>() });
+harness!(name=c04_vec_sub_9, prop=C04, mode=U, kind=normal, tier=quick, unwind=20, { vec_sub::<9>() });
+harness!(name=c04_vec_sub_10, prop=C04, mode=U, kind=normal, tier=thorough, unwind=20, { vec_sub::<10>() });
+harness!(name=c04_vec_sub_11, prop=C04, mode=U, kind=normal, tier=thorough, unwind=20, { vec_sub::<11>() });
+harness!(name=c04_vec_sub_12, prop=C04, mode=U, kind=normal, tier=thorough, unwind=20, { vec_sub::<12>() });
+harness!(name=c04_vec_sub_13, prop=C04, mode=U, kind=normal, tier=thorough, unwind=20, { vec_sub::<13>() });
+harness!(name=c04_vec_sub_14, prop=C04, mode=U, kind=normal, tier=thorough, unwind=20, { vec_sub::<14>() });
+harness!(name=c04_vec_sub_15, prop=C04, mode=U, kind=normal, tier=rot1, unwind=20, { vecc_sub::<15>() });
+harness!(name=c04_vec_sub_16, prop=C04, mode=U, kind=normal, tier=rot2, unwind=20, { vecc_sub::<16>() });
+harness!(name=c04_vec_sub_17, prop=C04, mode=U, kind=normal, tier=quick, unwind=21, { vecc_sub::<17>() });
+harness!(name=c04_vec_sub_18, prop=C04, mode=U, kind=normal, tier=thorough, unwind=22, { vecc_sub::<18>() });
+harness!(name=c04_vec_sub_19, prop=C04, mode=U, kind=normal, tier=thorough, unwind=23, { vecc_sub::<19>() });
+harness!(name=c04_vec_sub_20, prop=C04, mode=U, kind=normal, tier=thorough, unwind=24, { vecc_sub::<20>() });
+harness!(name=c04_vec_sub_21, prop=C04, mode=U, kind=normal, tier=thorough, unwind=25, { vecc_sub::<21>() });
+harness!(name=c04_vec_sub_22, prop=C04, mode=U, kind=normal, tier=thorough, unwind=26, { vecc_sub::<22>() });
+harness!(name=c04_vec_sub_23, prop=C04, mode=U, kind=normal, tier=thorough, unwind=27, { vecc_sub::<23>() });
+harness!(name=c04_vec_sub_24, prop=C04, mode=U, kind=normal, tier=thorough, unwind=28, { vecc_sub::<24>() });
+harness!(name=c04_vec_sub_33, prop=C04, mode=U, kind=normal, tier=thorough, unwind=40, { vecc_sub::<33>() });
+harness!(name=c04_vec_mul_0, prop=C04, mode=U, kind=normal, tier=quick, unwind=20, { vec_mul::<0>() });
+harness!(name=c04_vec_mul_1, prop=C04, mode=U, kind=normal, tier=quick, unwind=20, { vec_mul::<1>() });
+harness!(name=c04_vec_mul_2, prop=C04, mode=U, kind=normal, tier=thorough, unwind=20, { vec_mul::<2>() });
+harness!(name=c04_vec_mul_3, prop=C04, mode=U, kind=normal, tier=thorough, unwind=20, { vec_mul::<3>() });
+harness!(name=c04_vec_mul_4, prop=C04, mode=U, kind=normal, tier=thorough, unwind=20, { vec_mul::<4>() });
+harness!(name=c04_vec_mul_5, prop=C04, mode=U, kind=normal, tier=thorough, unwind=20, { vec_mul::<5>() });
+harness!(name=c04_vec_mul_6, prop=C04, mode=U, kind=normal, tier=thorough, unwind=20, { vec_mul::<6>() });
+harness!(name=c04_vec_mul_7, prop=C04, mode=U, kind=normal, tier=rot0, unwind=20, { vec_mul::<7>() });
+harness!(name=c04_vec_mul_8, prop=C04, mode=U, kind=normal, tier=quick, unwind=20, { vec_mul::<8>() });
+harness!(name=c04_vec_mul_9, prop=C04, mode=U, kind=normal, tier=quick, unwind=20, { vec_mul::<9>() });
+harness!(name=c04_vec_mul_10, prop=C04, mode=U, kind=normal, tier=thorough, unwind=20, { vec_mul::<10>() });
+harness!(name=c04_vec_mul_11, prop=C04, mode=U, kind=normal, tier=thorough, unwind=20, { vec_mul::<11>() });
+harness!(name=c04_vec_mul_12, prop=C04, mode=U, kind=normal, tier=thorough, unwind=20, { vec_mul::<12>() });
+harness!(name=c04_vec_mul_13, prop=C04, mode=U, kind=normal, tier=thorough, unwind=20, { vec_mul::<13>() });
+harness!(name=c04_vec_mul_14, prop=C04, mode=U, kind=normal, tier=thorough, unwind=20, { vec_mul::<14>() });
+harness!(name=c04_vec_mul_15, prop=C04, mode=U, kind=normal, tier=rot2, unwind=20, { vecc_mul::<15>() });
+harness!(name=c04_vec_mul_16, prop=C04, mode=U, kind=normal, tier=rot0, unwind=20, { vecc_mul::<16>() });
+harness!(name=c04_vec_mul_17, prop=C04, mode=U, kind=normal, tier=quick, unwind=21, { vecc_mul::<17>() });
+harness!(name=c04_vec_mul_18, prop=C04, mode=U, kind=normal, tier=thorough, unwind=22, { vecc_mul::<18>() });
+harness!(name=c04_vec_mul_19, prop=C04, mode=U, kind=normal, tier=thorough, unwind=23, { vecc_mul::<19>() });
+harness!(name=c04_vec_mul_20, prop=C04, mode=U, kind=normal, tier=thorough, unwind=24, { vecc_mul::<20>() });
+harness!(name=c04_vec_mul_21, prop=C04, mode=U, kind=normal, tier=thorough, unwind=25, { vecc_mul::<21>() });
+harness!(name=c04_vec_mul_22, prop=C04, mode=U, kind=normal, tier=thorough, unwind=26, { vecc_mul::<22>() });
+harness!(name=c04_vec_mul_23, prop=C04, mode=U, kind=normal, tier=thorough, unwind=27, { vecc_mul::<23>() });
+harness!(name=c04_vec_mul_24, prop=C04, mode=U, kind=normal, tier=thorough, unwind=28, { vecc_mul::<24>() });
+harness!(name=c04_vec_mul_33, prop=C04, mode=U, kind=normal, tier=thorough, unwind=40, { vecc_mul::<33>() });
+harness!(name=c04_vec_div_0, prop=C04, mode=U, kind=normal, tier=quick, unwind=20, { vec_div::<0>() });
+harness!(name=c04_vec_div_1, prop=C04, mode=U, kind=normal, tier=quick, unwind=20, { vec_div::<1>() });
+harness!(name=c04_vec_div_2, prop=C04, mode=U, kind=normal, tier=thorough, unwind=20, { vec_div::<2>() });
+harness!(name=c04_vec_div_3, prop=C04, mode=U, kind=normal, tier=thorough, unwind=20, { vec_div::<3>() });
+harness!(name=c04_vec_div_4, prop=C04, mode=U, kind=normal, tier=thorough, unwind=20, { vec_div::<4>() });
+harness!(name=c04_vec_div_5, prop=C04, mode=U, kind=normal, tier=thorough, unwind=20, { vec_div::<5>() });
+harness!(name=c04_vec_div_6, prop=C04, mode=U, kind=normal, tier=thorough, unwind=20, { vec_div::<6>() });
+harness!(name=c04_vec_div_7, prop=C04, mode=U, kind=normal, tier=rot1, unwind=20, { vec_div::<7>() });
+harness!(name=c04_vec_div_8, prop=C04, mode=U, kind=normal, tier=quick, unwind=20, { vec_div::<8>() });
+harness!(name=c04_vec_div_9, prop=C04, mode=U, kind=normal, tier=quick, unwind=20, { vec_div::<9>() });
+harness!(name=c04_vec_div_10, prop=C04, mode=U, kind=normal, tier=thorough, unwind=20, { vec_div::<10>() });
+harness!(name=c04_vec_div_11, prop=C04, mode=U, kind=normal, tier=thorough, unwind=20, { vec_div::<11>() });
+harness!(name=c04_vec_div_12, prop=C04, mode=U, kind=normal, tier=thorough, unwind=20, { vec_div::<12>() });
+harness!(name=c04_vec_div_13, prop=C04, mode=U, kind=normal, tier=thorough, unwind=20, { vec_div::<13>() });
+harness!(name=c04_vec_div_14, prop=C04, mode=U, kind=normal, tier=thorough, unwind=20, { vec_div::<14>() });
+harness!(name=c04_vec_div_15, prop=C04, mode=U, kind=normal, tier=rot0, unwind=20, { vecc_div::<15>() });
+harness!(name=c04_vec_div_16, prop=C04, mode=U, kind=normal, tier=rot1, unwind=20, { vecc_div::<16>() });
+harness!(name=c04_vec_div_17, prop=C04, mode=U, kind=normal, tier=quick, unwind=21, { vecc_div::<17>() });
+harness!(name=c04_vec_div_18, prop=C04, mode=U, kind=normal, tier=thorough, unwind=22, { vecc_div::<18>() });
+harness!(name=c04_vec_div_19, prop=C04, mode=U, kind=normal, tier=thorough, unwind=23, { vecc_div::<19>() });
+harness!(name=c04_vec_div_20, prop=C04, mode=U, kind=normal, tier=thorough, unwind=24, { vecc_div::<20>() });
+harness!(name=c04_vec_div_21, prop=C04, mode=U, kind=normal, tier=thorough, unwind=25, { vecc_div::<21>() });
+harness!(name=c04_vec_div_22, prop=C04, mode=U, kind=normal, tier=thorough, unwind=26, { vecc_div::<22>() });
+harness!(name=c04_vec_div_23, prop=C04, mode=U, kind=normal, tier=thorough, unwind=27, { vecc_div::<23>() });
+harness!(name=c04_vec_div_24, prop=C04, mode=U, kind=normal, tier=thorough, unwind=28, { vecc_div::<24>() });
+harness!(name=c04_vec_div_33, prop=C04, mode=U, kind=normal, tier=thorough, unwind=40, { vecc_div::<33>() });
+harness!(name=c04_mat_add_1x1, prop=C04, mode=U, kind=normal, tier=quick, unwind=22, { mat_add::<1, 1>() });
+harness!(name=c04_mat_add_2x3, prop=C04, mode=U, kind=normal, tier=quick, unwind=22, { mat_add::<2, 3>() });
+harness!(name=c04_mat_add_3x3, prop=C04, mode=U, kind=normal, tier=quick, unwind=22, { mat_add::<3, 3>() });
+harness!(name=c04_mat_add_2x8, prop=C04, mode=U, kind=normal, tier=rot0, unwind=22, { mat_add::<2, 8>() });
+harness!(name=c04_mat_add_1x17, prop=C04, mode=U, kind=normal, tier=rot1, unwind=22, { mat_add::<1, 17>() });
+harness!(name=c04_mat_add_4x4, prop=C04, mode=U, kind=normal, tier=thorough, unwind=22, { mat_add::<4, 4>() });
+harness!(name=c04_mat_sub_1x1, prop=C04, mode=U, kind=normal, tier=quick, unwind=22, { mat_sub::<1, 1>() });
+harness!(name=c04_mat_sub_2x3, prop=C04, mode=U, kind=normal, tier=quick, unwind=22, { mat_sub::<2, 3>() });
+harness!(name=c04_mat_sub_3x3, prop=C04, mode=U, kind=normal, tier=quick, unwind=22, { mat_sub::<3, 3>() });
+harness!(name=c04_mat_sub_2x8, prop=C04, mode=U, kind=normal, tier=rot0, unwind=22, { mat_sub::<2, 8>() });
+harness!(name=c04_mat_sub_1x17, prop=C04, mode=U, kind=normal, tier=rot1, unwind=22, { mat_sub::<1, 17>() });
+harness!(name=c04_mat_sub_4x4, prop=C04, mode=U, kind=normal, tier=thorough, unwind=22, { mat_sub::<4, 4>() });
+harness!(name=c04_mat_mul_1x1, prop=C04, mode=U, kind=normal, tier=quick, unwind=22, { mat_mul::<1, 1>() });
+harness!(name=c04_mat_mul_2x3, prop=C04, mode=U, kind=normal, tier=quick, unwind=22, { mat_mul::<2, 3>() });
+harness!(name=c04_mat_mul_3x3, prop=C04, mode=U, kind=normal, tier=quick, unwind=22, { mat_mul::<3, 3>() });
+harness!(name=c04_mat_mul_2x8, prop=C04, mode=U, kind=normal, tier=rot0, unwind=22, { mat_mul::<2, 8>() });
+harness!(name=c04_mat_mul_1x17, prop=C04, mode=U, kind=normal, tier=rot1, unwind=22, { mat_mul::<1, 17>() });
+harness!(name=c04_mat_mul_4x4, prop=C04, mode=U, kind=normal, tier=thorough, unwind=22, { mat_mul::<4, 4>() });
+harness!(name=c04_mat_div_1x1, prop=C04, mode=U, kind=normal, tier=quick, unwind=22, { mat_div::<1, 1>() });
+harness!(name=c04_mat_div_2x3, prop=C04, mode=U, kind=normal, tier=quick, unwind=22, { mat_div::<2, 3>() });
+harness!(name=c04_mat_div_3x3, prop=C04, mode=U, kind=normal, tier=quick, unwind=22, { mat_div::<3, 3>() });
+harness!(name=c04_mat_div_2x8, prop=C04, mode=U, kind=normal, tier=rot0, unwind=22, { mat_div::<2, 8>() });
+harness!(name=c04_mat_div_1x17, prop=C04, mode=U, kind=normal, tier=rot1, unwind=22, { mat_div::<1, 17>() });
+harness!(name=c04_mat_div_4x4, prop=C04, mode=U, kind=normal, tier=thorough, unwind=22, { mat_div::<4, 4>() });
+harness!(name=c04_map_ln_9, prop=C04, mode=U, kind=normal, tier=quick, unwind=20, { map_ln::<9>() });
+harness!(name=c04_map_ln_17, prop=C04, mode=U, kind=normal, tier=rot0, unwind=24, { map_ln::<17>() });
+harness!(name=c04_map_ln_1p_9, prop=C04, mode=U, kind=normal, tier=quick, unwind=20, { map_ln_1p::<9>() });
+harness!(name=c04_map_ln_1p_17, prop=C04, mode=U, kind=normal, tier=rot1, unwind=24, { map_ln_1p::<17>() });
+harness!(name=c04_map_log10_9, prop=C04, mode=U, kind=normal, tier=quick, unwind=20, { map_log10::<9>() });
+harness!(name=c04_map_log10_17, prop=C04, mode=U, kind=normal, tier=rot2, unwind=24, { map_log10::<17>() });
+harness!(name=c04_map_log2_9, prop=C04, mode=U, kind=normal, tier=quick, unwind=20, { map_log2::<9>() });
+harness!(name=c04_map_log2_17, prop=C04, mode=U, kind=normal, tier=rot0, unwind=24, { map_log2::<17>() });
+harness!(name=c04_map_exp_9, prop=C04, mode=U, kind=normal, tier=quick, unwind=20, { map_exp::<9>() });
+harness!(name=c04_map_exp_17, prop=C04, mode=U, kind=normal, tier=rot1, unwind=24, { map_exp::<17>() });
+harness!(name=c04_map_exp2_9, prop=C04, mode=U, kind=normal, tier=quick, unwind=20, { map_exp2::<9>() });
+harness!(name=c04_map_exp2_17, prop=C04, mode=U, kind=normal, tier=rot2, unwind=24, { map_exp2::<17>() });
+harness!(name=c04_map_exp_m1_9, prop=C04, mode=U, kind=normal, tier=quick, unwind=20, { map_exp_m1::<9>() });
+harness!(name=c04_map_exp_m1_17, prop=C04, mode=U, kind=normal, tier=rot0, unwind=24, { map_exp_m1::<17>() });
+harness!(name=c04_map_sin_9, prop=C04, mode=U, kind=normal, tier=quick, unwind=20, { map_sin::<9>() });
+harness!(name=c04_map_sin_17, prop=C04, mode=U, kind=normal, tier=rot1, unwind=24, { map_sin::<17>() });
+harness!(name=c04_map_cos_9, prop=C04, mode=U, kind=normal, tier=quick, unwind=20, { map_cos::<9>() });
+harness!(name=c04_map_cos_17, prop=C04, mode=U, kind=normal, tier=rot2, unwind=24, { map_cos::<17>() });
+harness!(name=c04_map_tan_9, prop=C04, mode=U, kind=normal, tier=quick, unwind=20, { map_tan::<9>() });
+harness!(name=c04_map_tan_17, prop=C04, mode=U, kind=normal, tier=rot0, unwind=24, { map_tan::<17>() });
+harness!(name=c04_map_sinh_9, prop=C04, mode=U, kind=normal, tier=quick, unwind=20, { map_sinh::<9>() });
+harness!(name=c04_map_sinh_17, prop=C04, mode=U, kind=normal, tier=rot1, unwind=24, { map_sinh::<17>() });
+harness!(name=c04_map_cosh_9, prop=C04, mode=U, kind=normal, tier=quick, unwind=20, { map_cosh::<9>() });
+harness!(name=c04_map_cosh_17, prop=C04, mode=U, kind=normal, tier=rot2, unwind=24, { map_cosh::<17>() });
+harness!(name=c04_map_tanh_9, prop=C04, mode=U, kind=normal, tier=quick, unwind=20, { map_tanh::<9>() });
+harness!(name=c04_map_tanh_17, prop=C04, mode=U, kind=normal, tier=rot0, unwind=24, { map_tanh::<17>() });
+harness!(name=c04_map_asin_9, prop=C04, mode=U, kind=normal, tier=quick, unwind=20, { map_asin::<9>() });
+harness!(name=c04_map_asin_17, prop=C04, mode=U, kind=normal, tier=rot1, unwind=24, { map_asin::<17>() });
+harness!(name=c04_map_acos_9, prop=C04, mode=U, kind=normal, tier=quick, unwind=20, { map_acos::<9>() });
+harness!(name=c04_map_acos_17, prop=C04, mode=U, kind=normal, tier=rot2, unwind=24, { map_acos::<17>() });
+harness!(name=c04_map_atan_9, prop=C04, mode=U, kind=normal, tier=quick, unwind=20, { map_atan::<9>() });
+harness!(name=c04_map_atan_17, prop=C04, mode=U, kind=normal, tier=rot0, unwind=24, { map_atan::<17>() });
+harness!(name=c04_map_asinh_9, prop=C04, mode=U, kind=normal, tier=quick, unwind=20, { map_asinh::<9>() });
+harness!(name=c04_map_asinh_17, prop=C04, mode=U, kind=normal, tier=rot1, unwind=24, { map_asinh::<17>() });
+harness!(name=c04_map_acosh_9, prop=C04, mode=U, kind=normal, tier=quick, unwind=20, { map_acosh::<9>() });
+harness!(name=c04_map_acosh_17, prop=C04, mode=U, kind=normal, tier=rot2, unwind=24, { map_acosh::<17>() });
+harness!(name=c04_map_atanh_9, prop=C04, mode=U, kind=normal, tier=quick, unwind=20, { map_atanh::<9>() });
+harness!(name=c04_map_atanh_17, prop=C04, mode=U, kind=normal, tier=rot0, unwind=24, { map_atanh::<17>() });
+harness!(name=c04_map_sqrt_9, prop=C04, mode=U, kind=normal, tier=quick, unwind=20, { map_sqrt::<9>() });
+harness!(name=c04_map_sqrt_17, prop=C04, mode=U, kind=normal, tier=rot1, unwind=24, { map_sqrt::<17>() });
+harness!(name=c04_map_cbrt_9, prop=C04, mode=U, kind=normal, tier=quick, unwind=20, { map_cbrt::<9>() });
+harness!(name=c04_map_cbrt_17, prop=C04, mode=U, kind=normal, tier=rot2, unwind=24, { map_cbrt::<17>() });
+harness!(name=c04_map_abs_9, prop=C04, mode=U, kind=normal, tier=quick, unwind=20, { map_abs::<9>() });
+harness!(name=c04_map_abs_17, prop=C04, mode=U, kind=normal, tier=rot0, unwind=24, { map_abs::<17>() });
+harness!(name=c04_map_floor_9, prop=C04, mode=U, kind=normal, tier=quick, unwind=20, { map_floor::<9>() });
+harness!(name=c04_map_floor_17, prop=C04, mode=U, kind=normal, tier=rot1, unwind=24, { map_floor::<17>() });
+harness!(name=c04_map_ceil_9, prop=C04, mode=U, kind=normal, tier=quick, unwind=20, { map_ceil::<9>() });
+harness!(name=c04_map_ceil_17, prop=C04, mode=U, kind=normal, tier=rot2, unwind=24, { map_ceil::<17>() });
+harness!(name=c04_map_to_radians_9, prop=C04, mode=U, kind=normal, tier=quick, unwind=20, { map_to_radians::<9>() });
+harness!(name=c04_map_to_radians_17, prop=C04, mode=U, kind=normal, tier=rot0, unwind=24, { map_to_radians::<17>() });
+harness!(name=c04_map_to_degrees_9, prop=C04, mode=U, kind=normal, tier=quick, unwind=20, { map_to_degrees::<9>() });
+harness!(name=c04_map_to_degrees_17, prop=C04, mode=U, kind=normal, tier=rot1, unwind=24, { map_to_degrees::<17>() });
+harness!(name=c04_map_recip_9, prop=C04, mode=U, kind=normal, tier=quick, unwind=20, { map_recip::<9>() });
+harness!(name=c04_map_recip_17, prop=C04, mode=U, kind=normal, tier=rot2, unwind=24, { map_recip::<17>() });
+harness!(name=c04_map_round_9, prop=C04, mode=U, kind=normal, tier=quick, unwind=20, { map_round::<9>() });
+harness!(name=c04_map_round_17, prop=C04, mode=U, kind=normal, tier=rot0, unwind=24, { map_round::<17>() });
+harness!(name=c04_map_signum_9, prop=C04, mode=U, kind=normal, tier=quick, unwind=20, { map_signum::<9>() });
+harness!(name=c04_map_signum_17, prop=C04, mode=U, kind=normal, tier=rot1, unwind=24, { map_signum::<17>() });
+harness!(name=c04_map_ln_0, prop=C04, mode=U, kind=normal, tier=quick, unwind=20, { map_ln::<0>() });
+harness!(name=c04_map_ln_1, prop=C04, mode=U, kind=normal, tier=quick, unwind=20, { map_ln::<1>() });
+harness!(name=c04_map_sqrt_0, prop=C04, mode=U, kind=normal, tier=quick, unwind=20, { map_sqrt::<0>() });
+harness!(name=c04_map_sqrt_1, prop=C04, mode=U, kind=normal, tier=quick, unwind=20, { map_sqrt::<1>() });
+harness!(name=c04_map_abs_0, prop=C04, mode=U, kind=normal, tier=quick, unwind=20, { map_abs::<0>() });
+harness!(name=c04_map_abs_1, prop=C04, mode=U, kind=normal, tier=quick, unwind=20, { map_abs::<1>() });
+harness!(name=c04_map_recip_0, prop=C04, mode=U, kind=normal, tier=quick, unwind=20, { map_recip::<0>() });
+harness!(name=c04_map_recip_1, prop=C04, mode=U, kind=normal, tier=quick, unwind=20, { map_recip::<1>() });
+harness!(name=c04_neg_0, prop=C04, mode=U, kind=normal, tier=quick, unwind=24, { neg_h::<0>() });
+harness!(name=c04_neg_1, prop=C04, mode=U, kind=normal, tier=quick, unwind=24, { neg_h::<1>() });
+harness!(name=c04_neg_9, prop=C04, mode=U, kind=normal, tier=quick, unwind=24, { neg_h::<9>() });
+harness!(name=c04_neg_17, prop=C04, mode=U, kind=normal, tier=rot2, unwind=24, { neg_h::<17>() });
+harness!(name=c04_pow_im1_9, prop=C04, mode=U, kind=normal, tier=quick, unwind=20, { powi_h::<9>(-1) });
+harness!(name=c04_pow_im1_17, prop=C04, mode=U, kind=normal, tier=rot1, unwind=24, { powi_h::<17>(-1) });
+harness!(name=c04_pow_i0_9, prop=C04, mode=U, kind=normal, tier=quick, unwind=20, { powi_h::<9>(0) });
+harness!(name=c04_pow_i0_17, prop=C04, mode=U, kind=normal, tier=rot0, unwind=24, { powi_h::<17>(0) });
+harness!(name=c04_pow_i1_9, prop=C04, mode=U, kind=normal, tier=quick, unwind=20, { powi_h::<9>(1) });
+harness!(name=c04_pow_i1_17, prop=C04, mode=U, kind=normal, tier=rot1, unwind=24, { powi_h::<17>(1) });
+harness!(name=c04_pow_i2_9, prop=C04, mode=U, kind=normal, tier=quick, unwind=20, { powi_h::<9>(2) });
+harness!(name=c04_pow_i2_17, prop=C04, mode=U, kind=normal, tier=rot2, unwind=24, { powi_h::<17>(2) });
+harness!(name=c04_pow_i3_9, prop=C04, mode=U, kind=normal, tier=quick, unwind=20, { powi_h::<9>(3) });
+harness!(name=c04_pow_i3_17, prop=C04, mode=U, kind=normal, tier=rot0, unwind=24, { powi_h::<17>(3) });
+harness!(name=c04_pow_i4_9, prop=C04, mode=U, kind=normal, tier=quick, unwind=20, { powi_h::<9>(4) });
+harness!(name=c04_pow_i4_17, prop=C04, mode=U, kind=normal, tier=rot1, unwind=24, { powi_h::<17>(4) });
+harness!(name=c04_pow_f_9, prop=C04, mode=U, kind=normal, tier=quick, unwind=20, { powf_h::<9>() });
+harness!(name=c04_pow_f_1, prop=C04, mode=U, kind=normal, tier=quick, unwind=20, { powf_h::<1>() });
+harness!(name=c04_mismatch_0, prop=C04, mode=U, kind=mustpanic, tier=quick, unwind=24, { mismatch(0) });
+harness!(name=c04_mismatch_1, prop=C04, mode=U, kind=mustpanic, tier=quick, unwind=24, { mismatch(1) });
+harness!(name=c04_mismatch_2, prop=C04, mode=U, kind=mustpanic, tier=quick, unwind=24, { mismatch(2) });
+harness!(name=c04_mismatch_3, prop=C04, mode=U, kind=mustpanic, tier=quick, unwind=24, { mismatch(3) });
+harness!(name=c04_mismatch_4, prop=C04, mode=U, kind=mustpanic, tier=quick, unwind=24, { mismatch(4) });
+harness!(name=c04_mismatch_5, prop=C04, mode=U, kind=mustpanic, tier=quick, unwind=24, { mismatch(5) });
+harness!(name=c04_mismatch_6, prop=C04, mode=U, kind=mustpanic, tier=quick, unwind=24, { mismatch(6) });
+harness!(name=c04_mismatch_7, prop=C04, mode=U, kind=mustpanic, tier=quick, unwind=24, { mismatch(7) });
+harness!(name=c04_red_0, prop=C04, mode=R, kind=normal, tier=quick, unwind=24, { red::<0>() });
+harness!(name=c04_red_1, prop=C04, mode=R, kind=normal, tier=quick, unwind=24, { red::<1>() });
+harness!(name=c04_red_2, prop=C04, mode=R, kind=normal, tier=quick, unwind=24, { red::<2>() });
+harness!(name=c04_red_7, prop=C04, mode=R, kind=normal, tier=quick, unwind=24, { red::<7>() });
+harness!(name=c04_red_8, prop=C04, mode=R, kind=normal, tier=quick, unwind=24, { red::<8>() });
+harness!(name=c04_red_9, prop=C04, mode=R, kind=normal, tier=quick, unwind=24, { red::<9>() });
+harness!(name=c04_red_17, prop=C04, mode=R, kind=normal, tier=thorough, unwind=24, { red::<17>() });
+harness!(name=c04_infnorm_2x2, prop=C04, mode=R, kind=normal, tier=quick, unwind=20, { infnorm::<2, 2>() });
+harness!(name=c04_infnorm_3x2, prop=C04, mode=R, kind=normal, tier=thorough, unwind=20, { infnorm::<3, 2>() });
+harness!(name=c04_lse_1, prop=C04, mode=R, kind=normal, tier=quick, unwind=20, { lse::<1>() });
+harness!(name=c04_lse_2, prop=C04, mode=R, kind=normal, tier=quick, unwind=20, { lse::<2>() });
+harness!(name=c04_lse_3, prop=C04, mode=R, kind=normal, tier=quick, unwind=20, { lse::<3>() });
+harness!(name=c04_lse_5, prop=C04, mode=R, kind=normal, tier=thorough, unwind=20, { lse::<5>() });
